@@ -991,24 +991,10 @@ func (r stack) isNesting() (is bool) {
 		// perform a type switch on the
 		// current index, thereby allowing
 		// evaluation of slice types.
-		switch tv := r[i].(type) {
-
-		// native Stack instance
-		case Stack:
-			is = true
-
-		// type alias stack instnaces, since
-		// we have no knowledge of them here,
-		// will be matched in default using
-		// the stackTypeAliasConverter func.
-		default:
-
-			// If convertible is true, we know the
-			// instance (tv) is a stack alias.
-			_, is = stackTypeAliasConverter(tv)
-		}
-
-		if is {
+		// native Stack instances and type alias
+		// stack instances (or pointers to either)
+		// alike, initialised or not.
+		if is = isStackKind(r[i]); is {
 			break
 		}
 	}
@@ -3109,13 +3095,23 @@ func (r *stack) implode(start, max int, spat []int) (tpat []int) {
 func (r *stack) canPushNester(x any) (can bool) {
 	can = true
 	if r.positive(nnest) {
-		if _, native := x.(Stack); native {
-			// a native Stack is a Stack whether
-			// or not it has been initialised
-			can = false
-		} else {
-			_, isStack := stackTypeAliasConverter(x)
-			can = !isStack
+		// a Stack is a Stack - native, alias or pointer -
+		// whether or not it has been initialised
+		can = !isStackKind(x)
+	}
+	return
+}
+
+/*
+isStackKind reports whether x is a Stack, a type alias of Stack, or a
+non-nil pointer to either. Unlike stackTypeAliasConverter it judges the
+type alone, so zero-valued (uninitialised) instances qualify as well.
+*/
+func isStackKind(x any) (is bool) {
+	if x != nil {
+		if _, is = x.(Stack); !is {
+			a, _, _ := derefPtr(typOf(x), valOf(x))
+			is = a.ConvertibleTo(typOf(Stack{}))
 		}
 	}
 	return
